@@ -2645,24 +2645,22 @@ class CaseExpr(ColExpr):
             val_ftypes.add(self.default_val.ftype(agg_is_window=agg_is_window))
 
         for cond, val in self.cases:
-            cond.ftype(agg_is_window=agg_is_window)
+            # a window / aggregation function in a condition makes the whole expression
+            # one, just like in the argument of an element-wise function
+            if cond.dtype() is not None and not types.is_const(cond.dtype()):
+                val_ftypes.add(cond.ftype(agg_is_window=agg_is_window))
             if val.dtype() is not None and not types.is_const(val.dtype()):
                 val_ftypes.add(val.ftype(agg_is_window=agg_is_window))
 
         if None in val_ftypes:
             return None
 
-        if len(val_ftypes) == 0:
-            self._ftype = Ftype.ELEMENT_WISE
-        elif len(val_ftypes) == 1:
-            (self._ftype,) = val_ftypes
-        elif Ftype.WINDOW in val_ftypes:
+        if Ftype.WINDOW in val_ftypes:
             self._ftype = Ftype.WINDOW
+        elif Ftype.AGGREGATE in val_ftypes:
+            self._ftype = Ftype.AGGREGATE
         else:
-            raise FunctionTypeError(
-                "incompatible function types found in case statement: , ".join(val_ftypes),
-                source=self._fn_id,
-            )
+            self._ftype = Ftype.ELEMENT_WISE
 
         return self._ftype
 
